@@ -187,6 +187,20 @@ class VerifAccumulateOperation(FloatOperation):
         return FloatDataType(out)
 
 
+class VerifKwOnlyScaleOperation(FloatOperation):
+    """data * factor + offset, parameters declared keyword-only (after `*`, the style of the component guide)."""
+
+    def _process_logic(self, data, *, factor, offset=0.0):
+        return FloatDataType(data.data * factor + offset)
+
+
+class VerifKwOnlyProbe(FloatProbe):
+    """[data * factor, offset] with keyword-only parameters."""
+
+    def _process_logic(self, data, *, factor=1.0, offset=0.0):
+        return [data.data * factor, offset]
+
+
 class VerifStatefulScaleOperation(FloatOperation):
     """data * factor + 1000 * (number of calls this INSTANCE has served before)."""
 
